@@ -150,6 +150,10 @@ func runC15(c *core.Ctx) core.Meta {
 		}
 	})
 
+	// R15.8 a restart empties each port
+	st8 := c.Rule("R15.8", "a restart discards every request that was handed to the buffer before it: each drain loop of the reorder buffer (a loop that only takes messages off a port) serves one port and is left only where the retrieved message is nil, so the top port and the bottom port are each emptied completely. Requests left in the top port are accepted after the restart and their responses reach the requester although they were discarded", 1)
+	checkDrainLoops(c, st8, "R15.8", p, "requests that waited in the top port survive the restart, are sent to the lower level and answered after the flush was acknowledged")
+
 	// R15.3 capacity
 	st3 := c.Rule("R15.3", "a transaction is inserted only on paths that tested the capacity predicate false; the predicate compares transactions.Len() >= bufferSize", 2)
 	capPred := map[*ssa.Function]bool{}
